@@ -56,7 +56,8 @@ SPEC_FUEL = 400
 # ---------------------------------------------------------------- templates
 # item: ("T", text) | ("B", name, required, body, endname|None) | ("S",) | ("E", template name)
 #       | ("Q", 0|1)  a silent tag (assign / comment)   | ("W", "if"|"for", body)  {% if true %} / {% for i in (1..1) %}
-#       | ("I", template name) | ("N", template name)   include / render tag: harness and Python specification only
+#       | ("I", template name) | ("N", template name) | ("C", template name)   include / render tag / a macro that renders
+#         the template, called on the spot: harness and Python specification only
 
 
 def to_src(items: Iterable[tuple], data: dict | None = None, ae: bool = False) -> str:
@@ -90,6 +91,8 @@ def to_src(items: Iterable[tuple], data: dict | None = None, ae: bool = False) -
             out.append("{% include '" + it[1] + "' %}")
         elif it[0] == "N":
             out.append("{% render '" + it[1] + "' %}")
+        elif it[0] == "C":
+            out.append("{% macro mk %}{% render '" + it[1] + "' %}{% endmacro %}{% call mk %}")
         else:
             _, n, req, body, endn = it
             out.append("{% block " + n + (" required" if req else "") + " %}")
@@ -194,6 +197,7 @@ class Runner:
         self.loop = asyncio.new_event_loop()
         self.env_classes: dict[tuple, type] = {}
         self.timeout = RENDER_TIMEOUT_S
+        self.n_history = 0
         signal.signal(signal.SIGALRM, _on_alarm)
 
     def close(self) -> None:
@@ -219,6 +223,8 @@ class Runner:
         ae = bool(opts.get("ae"))
         data: dict | None = {} if opts.get("data") else None
         srcs = {k: to_src(v, data, ae) for k, v in tpls.items()}
+        before = ({k: to_src(v, data, ae) for k, v in opts["before"].items()}
+                  if opts.get("before") is not None else None)
         kw = dict(data or {})
         root = None
         makers: list[tuple[Any, bool]] = [(lambda: DictLoader(dict(srcs)), False),
@@ -233,6 +239,10 @@ class Runner:
             if entry[0] == "direct" and entry[1] in srcs:
                 makers.append((lambda: DictLoader(dict(srcs)), True))      # from_string(leaf) + extends
         outs = []
+        self.n_history = 0
+        if before is not None:
+            outs += self.history(before, srcs, entry, limit, suppress, ae, int(opts.get("mt", 10)), kw)
+            self.n_history = len(outs)      # the first n_history outcomes are second renders after the edit
         try:
             for make, anon in makers:
                 for is_async in (False, True):
@@ -268,6 +278,74 @@ class Runner:
             if root is not None:
                 shutil.rmtree(root, ignore_errors=True)
         return outs
+
+
+    def _guarded(self, thunk) -> tuple:  # noqa: ANN001
+        signal.setitimer(signal.ITIMER_REAL, self.timeout, 0.05)
+        try:
+            return ("ok", thunk())
+        except (RenderTimeout, MemoryError):
+            signal.setitimer(signal.ITIMER_REAL, 0)
+            self.loop = asyncio.new_event_loop()
+            self.timeout = 0.5
+            return ("err", "DidNotTerminate")
+        except Exception as e:  # noqa: BLE001
+            return ("err", type(e).__name__)
+        finally:
+            signal.setitimer(signal.ITIMER_REAL, 0)
+
+    def history(self, before: dict[str, str], after: dict[str, str], entry: tuple, limit: int,
+                suppress: bool, ae: bool, mt: int, kw: dict) -> list[tuple]:
+        """Auto-reload through the tags: write `before` into a scratch directory, render the entry
+        with caching auto-reload file-system loaders (sync and async environments), rewrite the
+        files that differ in `after` (parents; mtime moved by `mt` seconds, forwards or backwards),
+        render again.  Returns the outcomes of the second render: the cached environments (a new
+        get_template and the template object of the first render), and a fresh environment."""
+        from liquid2 import CachingFileSystemLoader, FileSystemLoader
+        root = Path(tempfile.mkdtemp(prefix="c08h_", dir=os.environ.get("VERIF_SCRATCH", "/var/tmp")))
+        t0 = 1_000_000_000
+        try:
+            for k, v in before.items():
+                f = root / k
+                f.parent.mkdir(parents=True, exist_ok=True)
+                f.write_text(v)
+                os.utime(f, (t0, t0))
+            cls = self.env_class(limit, suppress)
+            env_s = cls(loader=CachingFileSystemLoader(root), auto_escape=ae)
+            env_a = cls(loader=CachingFileSystemLoader(root), auto_escape=ae)
+            if entry[0] == "direct":
+                get_s = lambda: env_s.get_template(entry[1])                                   # noqa: E731
+                get_a = lambda: self.loop.run_until_complete(env_a.get_template_async(entry[1]))  # noqa: E731
+            else:
+                w = "".join(("{% render '" if r else "{% include '") + n + "' %}" for r, n in entry[1])
+                get_s = lambda: env_s.from_string(w)   # noqa: E731
+                get_a = lambda: env_a.from_string(w)   # noqa: E731
+            first: list = []
+
+            def once_s():  # noqa: ANN202
+                t = get_s()
+                first.append(t)
+                return t.render(**kw)
+            self._guarded(once_s)
+            self._guarded(lambda: self.loop.run_until_complete(get_a().render_async(**kw)))
+            for k, v in after.items():
+                if before.get(k) != v:
+                    f = root / k
+                    f.parent.mkdir(parents=True, exist_ok=True)
+                    f.write_text(v)
+                    os.utime(f, (t0 + mt, t0 + mt))
+            outs = [self._guarded(lambda: get_s().render(**kw)),
+                    self._guarded(lambda: self.loop.run_until_complete(get_a().render_async(**kw)))]
+            if first:
+                outs.append(self._guarded(lambda: first[0].render(**kw)))
+            fresh = cls(loader=FileSystemLoader(root), auto_escape=ae)
+            if entry[0] == "direct":
+                outs.append(self._guarded(lambda: fresh.get_template(entry[1]).render(**kw)))
+            else:
+                outs.append(self._guarded(lambda: fresh.from_string(w).render(**kw)))
+            return outs
+        finally:
+            shutil.rmtree(root, ignore_errors=True)
 
 
 # ---------------------------------------------------------------- independent Python reference of the specification
@@ -306,7 +384,8 @@ def is_blank(items: list) -> bool:
     return True
 
 
-def pyspec(tpls: dict[str, list], name: str, _depth: int = 0, suppress: bool = True) -> tuple | None:
+def pyspec(tpls: dict[str, list], name: str, _depth: int = 0, suppress: bool = True,
+           include_shares_stacks: bool = False) -> tuple | None:
     """Root parent's text, every block replaced by the first definition found
     walking leaf -> root, super = next definition; None if the unfolding does
     not terminate.  Written without stacks, contexts or limits."""
@@ -367,15 +446,20 @@ def pyspec(tpls: dict[str, list], name: str, _depth: int = 0, suppress: bool = T
                     pass
                 elif it[0] == "W":
                     out.append(body(it[2], sup, depth + 1))
-                elif it[0] in ("I", "N"):
-                    sub = pyspec(tpls, it[1], _depth + depth + 1, suppress)
+                elif (it[0] == "I" and include_shares_stacks and it[1] in tpls
+                      and not any(x[0] == "E" for x in _walk(tpls[it[1]]))):
+                    # the recorded alternative: an included template without extends resolves its
+                    # blocks against the block stacks of the chain it is included from
+                    out.append(render(tpls[it[1]], [], depth + 1))
+                elif it[0] in ("I", "N", "C"):
+                    sub = pyspec(tpls, it[1], _depth + depth + 1, suppress, include_shares_stacks)
                     if sub is None:
                         raise Diverges
                     if sub[0] == "err":
                         raise SpecErr(sub[1])
                     out.append(sub[1])
                 else:
-                    ds = defs(it[1])
+                    ds = defs(it[1]) or [it]      # a block no chain member defines renders itself
                     if ds[0][2]:
                         raise SpecErr("RequiredBlockError")
                     out.append(body(ds[0][3], ds[1:], depth + 1))
@@ -574,6 +658,51 @@ def nested_cases(r, n: int) -> list[tuple[dict, tuple, int]]:
     return out
 
 
+def partial_cases(r, n: int) -> list[tuple[dict, tuple, int]]:
+    """A block-bearing template that does NOT extend (a depth-one chain: a card
+    that is also a base for other cards), with and without required blocks and
+    block.super, rendered / called through a macro / included from inside a
+    block of a chain that overrides blocks of the same names."""
+    out = []
+    names = BNAMES[:2]
+    shapes = fam_shapes(2)
+    for _ in range(n):
+        d_out = r.randint(2, 3)
+        outer = {f"t{i}": fam_template(i, names, *r.choice(shapes)) for i in range(d_out)}
+        st = tuple(r.choice("DDSR" if r.random() < 0.6 else "ODSR") for _ in names)
+        card = _map_items(fam_template(0, names, st, r.choice([0, 0, 1, 2])),
+                          lambda it: ("T", "k" + it[1][0] if len(it[1]) == 2 else {"[": "(", "]": ")"}[it[1]]) if it[0] == "T" else it)
+        kind = r.choice("NNCI")
+        hosts = [it for t in outer.values() for it in _walk(t) if it[0] == "B" and any(x[0] == "T" for x in it[3])]
+        if hosts and r.random() < 0.9:
+            r.choice(hosts)[3].append((kind, "k0"))
+        else:
+            outer["t0"].insert(r.randint(1, len(outer["t0"])), (kind, "k0"))
+        if r.random() < 0.25 and hosts:
+            r.choice(hosts)[3].insert(1, (r.choice("NC"), "k0"))
+        out.append(({**outer, "k0": card}, ("direct", f"t{d_out - 1}"), 30))
+    return out
+
+
+def _b(n: str, body: list, req: bool = False) -> tuple:
+    return ("B", n, req, body, None)
+
+
+# fixed partial cases: render / macro call must isolate; WINC is the recorded include behaviour
+_PBASE = {"t0": [("T", "["), _b("a", [("T", "ra")]), ("T", "|"), _b("b", [("T", "rb")]), ("T", "]")]}
+PARTIAL_CORPUS = [
+    ({**_PBASE, "t1": [("E", "t0"), _b("a", [("T", "la")]), _b("b", [("T", "lb"), (k, "k0")])],
+      "k0": card}, ("direct", "t1"), 30)
+    for k in "NC"
+    for card in ([("T", "("), _b("a", [("T", "ka")]), ("T", ")")],
+                 [("T", "("), _b("a", [], True), ("T", ")")],
+                 [("T", "("), _b("a", [("T", "ka"), ("S",)]), ("T", ")")],
+                 [("T", "("), _b("b", [("T", "kb"), _b("a", [("T", "ka")], True)]), ("T", ")")])
+]
+WINC = ({**_PBASE, "t1": [("E", "t0"), _b("a", [("T", "la")]), _b("b", [("T", "lb"), ("I", "k0")])],
+         "k0": [("T", "("), _b("a", [("T", "ka")]), ("T", ")")]}, ("direct", "t1"), 30)
+
+
 # Witness of the fixed defect nested-chain-shares-block-stacks.
 WNEST = ({"t0": [("T", "["), ("B", "a", False, [("T", "ra")], None), ("T", "|"), ("B", "b", False, [("T", "rb")], None),
                  ("T", "|"), ("B", "c", False, [("T", "rc")], None), ("T", "]")],
@@ -716,6 +845,46 @@ def same_basename(case: tuple, scheme: int = 0) -> tuple:
     return ({nm(k): _map_items(v, f) for k, v in tpls.items()}, entry2) + case[2:4] + (opts,)
 
 
+def edit_template(r, items: list) -> list:
+    """An edited version of a parent: every visible text changes (upper case), and often the
+    `required` flag of a block, the default body of a block, or the presence of a block."""
+    items = _map_items(items, lambda it: ("T", (it[1] if "&" in it[1] else it[1].upper()) + "!") if it[0] == "T" and it[1].strip() else it)
+    blocks = [it for it in _walk(items) if it[0] == "B"]
+    if blocks and r.random() < 0.5:
+        pick = r.choice(blocks)
+        items = _map_items(items, lambda it: it[:2] + (not it[2],) + it[3:] if it is pick else it)
+        blocks = [it for it in _walk(items) if it[0] == "B"]
+    if blocks and r.random() < 0.35:
+        pick = r.choice(blocks)
+        items = _map_items(items, lambda it: it[:3] + ([("T", "N" + it[1])], it[4]) if it is pick else it)
+        blocks = [it for it in _walk(items) if it[0] == "B"]
+    if blocks and r.random() < 0.2:
+        pick = r.choice(blocks)
+
+        def drop(xs: list) -> list:
+            return [x[:3] + (drop(x[3]), x[4]) if x[0] == "B" else x[:2] + (drop(x[2]),) if x[0] == "W" else x
+                    for x in xs if x is not pick]
+        items = drop(items)
+    return items
+
+
+def edited_history(r, case: tuple) -> tuple | None:
+    """The chain after an edit of one or two of its parents (never the entry
+    template); opts carry the chain as it was at the first render."""
+    case = tuple(case) + ((True,) if len(case) == 3 else ())
+    tpls, entry = case[0], case[1]
+    entered = {entry[1]} if entry[0] == "direct" else {n for _, n in entry[1]}
+    parents = [k for k in tpls if k not in entered]
+    if not parents:
+        return None
+    after = dict(tpls)
+    for k in r.sample(parents, min(len(parents), r.choice([1, 1, 2]))):
+        after[k] = edit_template(r, tpls[k])
+    opts = dict(case[4]) if len(case) > 4 else {}
+    opts.update({"before": tpls, "mt": r.choice([10, -10, 1, -3600])})
+    return (after, entry) + case[2:4] + (opts,)
+
+
 # legal chains and genuine cycles through names with a repeated last component
 NAME_CORPUS: list[tuple] = [
     ({"base": [("T", "["), ("B", "a", False, [("T", "r0")], None), ("T", "]")],
@@ -835,8 +1004,9 @@ def _observe_chunk(chunk: list[tuple[dict, tuple, int]]) -> list[list[tuple]]:
             suppress = case[3] if len(case) > 3 else True
             opts = case[4] if len(case) > 4 else None
             o = run.run(tpls, entry, limit, suppress, opts)
+            nh = run.n_history
             o8 = run.run(tpls, entry, 8, suppress, opts) if (("err", "RecursionError") in o and limit > 10) else None
-            out.append((o, o8))
+            out.append((o, o8, nh))
         return out
     finally:
         run.close()
@@ -931,7 +1101,7 @@ def main(chk: C.Check, build: C.Build) -> None:
         if r.random() < 0.03 and len(tpls) > 1:
             cases.append((tpls, ("wrap", [(r.random() < 0.5, entry[1])]), limit, c[3] if len(c) > 3 else True))
             fam_wrapped += 1
-    nrand = 400 if not thorough else 6000
+    nrand = 350 if not thorough else 6000
     for _ in range(nrand):
         cases.append(rand_case(r, thorough) + (r.random() < 0.75,))
     # configuration axes: markup characters in literal text / in render data with auto-escape on / off;
@@ -958,6 +1128,14 @@ def main(chk: C.Check, build: C.Build) -> None:
         n_basename += 2
     cases += NAME_CORPUS
     n_basename += len(NAME_CORPUS)
+    # auto-reload through the tags: a parent / grand-parent is edited on disk between two renders
+    n_history = 0
+    pool = [c for c in cases[n_fixed:] if len(c[0]) > 1 and not (len(c) > 4 and c[4].get("before"))]
+    for c in r.sample(pool, min(len(pool), 90 if not thorough else 2000)):
+        h = edited_history(r, c)
+        if h is not None:
+            cases.append(h)
+            n_history += 1
     cases = [tuple(c) + ((True,) if len(c) == 3 else ()) for c in cases]
     cases = [c + (({},) if len(c) == 4 else ()) for c in cases]
 
@@ -972,11 +1150,19 @@ def main(chk: C.Check, build: C.Build) -> None:
             "blank_body_suppressed": 0}
     nontriv: set[str] = set()
 
-    def agreed(outs: list[tuple], tpls: dict, entry: tuple, limit: int) -> tuple | None:
+    def agreed(outs: list[tuple], tpls: dict, entry: tuple, limit: int, n_hist: int = 0) -> tuple | None:
         depth_errors = {("err", "ContextDepthError"), ("err", "RecursionError")}
         if set(outs) == depth_errors:
             # the async path uses more Python frames per level: one mechanism, see the RecursionError finding
             return ("err", "RecursionError")
+        if n_hist and len(set(outs[n_hist:])) == 1 and set(outs[:n_hist]) != {outs[-1]}:
+            chk.finding("oracle:parent-edited-on-disk-not-reloaded",
+                        f"after a parent was edited on disk, the caching auto-reload file-system loader (sync get_template, "
+                        f"async get_template, the first render's template object, a fresh environment) gave {outs[:n_hist]}; "
+                        f"the edited chain renders {outs[-1]}",
+                        {"templates": {k: to_src(v) for k, v in tpls.items()}, "entry": entry,
+                         "context_depth_limit": limit, "outcomes": outs})
+            return None
         if any(o != outs[0] for o in outs):
             chk.finding("oracle:sync-async-or-caching-differ",
                         f"(DictLoader, CachingDictLoader[, FileSystemLoader, CachingFileSystemLoader, from_string]) x (sync, async) gave {outs}",
@@ -985,7 +1171,7 @@ def main(chk: C.Check, build: C.Build) -> None:
             return None
         return outs[0]
 
-    for (tpls, entry, limit, suppress, opts), (outs, outs8) in zip(cases, observed):
+    for (tpls, entry, limit, suppress, opts), (outs, outs8, n_hist) in zip(cases, observed):
         src = {k: to_src(v) for k, v in tpls.items()}
         for k_, d_ in (("ae", "auto_escape_on"), ("data", "markup_as_render_data"),
                        ("more", "file_system_loaders_and_from_string")):
@@ -996,7 +1182,7 @@ def main(chk: C.Check, build: C.Build) -> None:
             bn = [it[1] for it in _walk(t) if it[0] == "B"]
             return not any(it[0] == "E" for it in _walk(t)) and len(set(bn)) == len(bn)
         guard = all(n in tpls and (starts_with_ext(tpls[n]) or lone(tpls[n])) for n in names)
-        o = agreed(outs, tpls, entry, limit)
+        o = agreed(outs, tpls, entry, limit, n_hist)
         if o is None:
             continue
         if o == ("err", "RecursionError") and limit > 10:
@@ -1010,7 +1196,7 @@ def main(chk: C.Check, build: C.Build) -> None:
             dist["RecursionError"] += 1
             dist["retied_at_limit_8"] += 1
             limit = 8
-            o = agreed(outs8, tpls, entry, limit)
+            o = agreed(outs8, tpls, entry, limit, n_hist)
             if o is None:
                 continue
         key = o[1] if o[0] == "err" else "ok"
@@ -1031,8 +1217,11 @@ def main(chk: C.Check, build: C.Build) -> None:
         else:
             w = C.clist((C.cpair(C.cbool(rr), c_name(n)) for rr, n in entry[1]), "(bool * str)")
             model = f"run_wrapper {limit} {sb} ld {w}"
+        ropts = {k: v for k, v in opts.items() if k != "before"}
         replay = {"templates": src, "entry": entry, "context_depth_limit": limit,
-                  "suppress_blank_control_flow_blocks": suppress, "options": opts, "implementation": o}
+                  "suppress_blank_control_flow_blocks": suppress, "options": ropts, "implementation": o}
+        if "before" in opts:
+            replay["templates_at_the_first_render"] = {k: to_src(v) for k, v in opts["before"].items()}
         checks = [f"outcome_eqb ({model}) e"]
         shown = [model]
 
@@ -1075,9 +1264,9 @@ def main(chk: C.Check, build: C.Build) -> None:
                     {"templates": {k: to_src(v) for k, v in WREC[0].items()}, "implementation": o})
 
     # chains nested through include / render inside another chain: Python specification only
-    nested = [WNEST] + nested_cases(r, 250 if not thorough else 4000)
+    nested = [WNEST] + nested_cases(r, 200 if not thorough else 3000)
     n_nested_ok = 0
-    for (tpls, entry, limit), (outs, _) in zip(nested, observe_all(nested)):
+    for (tpls, entry, limit), (outs, _, _) in zip(nested, observe_all(nested)):
         o = agreed(outs, tpls, entry, limit)
         if o is None or o in (("err", "ContextDepthError"), ("err", "RecursionError")):
             continue
@@ -1089,6 +1278,36 @@ def main(chk: C.Check, build: C.Build) -> None:
                         f"the specification gives {exp if exp else 'no finite page'}",
                         {"templates": {k: to_src(v) for k, v in tpls.items()}, "entry": entry,
                          "implementation": o, "specification": exp})
+
+    # block-bearing templates that do not extend, rendered / called / included from inside a chain that
+    # overrides the same block names: render and macro calls isolate the block stacks; include is the
+    # recorded finding (the witness WINC is re-observed on every run)
+    partials = PARTIAL_CORPUS + [WINC] + partial_cases(r, 150 if not thorough else 3000)
+    n_partial = {"checked": 0, "render_or_call_only": 0, "include_shared_stacks_observed": 0}
+    for (tpls, entry, limit), (outs, _, _) in zip(partials, observe_all(partials)):
+        o = agreed(outs, tpls, entry, limit)
+        if o is None or o in (("err", "ContextDepthError"), ("err", "RecursionError")):
+            continue
+        exp = pyspec(tpls, entry[1])
+        n_partial["checked"] += 1
+        has_include = any(it[0] == "I" for t in tpls.values() for it in _walk(t))
+        n_partial["render_or_call_only"] += not has_include
+        if exp == o:
+            continue
+        replay = {"templates": {k: to_src(v) for k, v in tpls.items()}, "entry": entry,
+                  "implementation": o, "specification": exp}
+        alt = pyspec(tpls, entry[1], 0, True, True) if has_include else exp
+        if has_include and o == alt:
+            n_partial["include_shared_stacks_observed"] += 1
+            chk.finding("include-of-block-bearing-partial-shares-block-stacks",
+                        f"{to_src(tpls['k0'])!r} included from inside a chain that overrides its block names renders "
+                        f"{o}; with the partial's own definitions the page is {exp}",
+                        dict(replay, page_if_the_include_resolves_against_the_enclosing_stacks=alt))
+        else:
+            chk.finding("oracle:block-stacks-cross-an-isolation-boundary" if not has_include
+                        else "oracle:included-partial-resolves-to-neither-definition",
+                        f"a block-bearing template that does not extend, rendered from inside a chain: implementation "
+                        f"gave {o}, its own definitions give {exp}", replay)
 
     C.correspond(chk, "c08", IMPORTS, DEFS + "\n" + "\n".join(interned.defs), items,
                  what="Inherit.render_name/run_wrapper and spec_inherit", shard=400)
@@ -1125,7 +1344,9 @@ def main(chk: C.Check, build: C.Build) -> None:
         "random_cases": nrand,
         "auto_escape_variants": n_markup,
         "same_basename_variants": n_basename,
+        "parent_edited_on_disk_between_renders": n_history,
         "nested_chain_cases_checked_against_python_specification": n_nested_ok,
+        "block_bearing_partials_rendered_inside_a_chain": n_partial,
         "distribution": dist,
         "renders": 4 * len(items),
         "exhaustive": False,
